@@ -187,6 +187,11 @@ func Guard(fn func()) (panicked bool, class, site, detail string) {
 			stack := string(debug.Stack())
 			site = TopLibFrame(stack)
 			if d, ok := r.(*simrt.Diverged); ok {
+				// give the harness a fresh budget: what it does next must not trip
+				// over the steps the diverged operation used up
+				if simrt.S != nil {
+					simrt.S.ResetOp()
+				}
 				class = "diverged:" + d.Kind
 				detail = d.Error()
 				site = HotLibFrame(stack)
